@@ -133,6 +133,16 @@ def kernel() -> RowKernel:  # noqa: C901
         t.lets, t.checks,
         [(t.state.get("maskL", var("maskL", "vnat")).name, "vnat"), (t.state["confRow"].name, "vfl")],
     )
+    # stages (smaller definitions, composed by `crossCheckRow`): the consistency part ends before the first 2-D grid; the flag
+    # update starts at the first read of the left validity mask after the grids
+    lets = k.lets
+    cut1 = next((i for i, (_, e) in enumerate(lets) if pyvec_idx.has_grid(e)), None)
+    if cut1 is not None:
+        mask_names = {"maskL"}
+        cut2 = next((i for i, (_, e) in enumerate(lets) if i > cut1 and not pyvec_idx.has_grid(e)
+                     and pyvec_idx.free_vars(e, set()) & mask_names), None)
+        if cut2 is not None:
+            k.cuts = [cut1, cut2]
     k.origin = f"{SRC}: CrossCheckingAccurate.disparity_checking, body of `for {row} in {src(loop.iter)}`"
     k.source = "\n".join(src(s) for s in loop.body)
     k.meta = {"left": left, "right": right, "row": row, "nb_col": nb_col, "range": rng, "conf": conf}
